@@ -7,6 +7,6 @@ def scenarios(tier):
     fail = [s for s in corpus.fanout_fail_family(tier) if s["family"].endswith("-none") or s["family"] in ("parfail-nested-map", "parfail-nested-par")]
     fail = [s for s in fail if "both" not in s["family"]]
     # every way an execution is started: API / raw start events (seq family), and child launches of every form incl. the child's own time-out
-    return corpus.seq_family(tier) + corpus.fanout_ok_family(tier) + fail + corpus.bystander_family(tier) + corpus.child_family(tier)
+    return corpus.seq_family(tier) + corpus.fanout_ok_family(tier) + fail + corpus.bystander_family(tier) + corpus.child_family(tier) + corpus.update_family(tier)
 def run(tier, seed):
     return common.engine_check(PROP, scenarios(tier), MONITORS, tier, seed)
